@@ -25,6 +25,9 @@ IsPow2(n) == \E k \in 0..W : n = TwoTo(k)
 
 \* first rejected raw word (util.go: discard), M when nothing is rejected
 Threshold(n) == IF IsPow2(n) THEN M ELSE (M-1) - ((M-1) % n)
+\* the unbounded theorems about this threshold (any modulus, any bound) are proved in DrawProofs.tla
+DP == INSTANCE DrawProofs
+ThresholdIsTheProvedOne(n) == ~IsPow2(n) => Threshold(n) = DP!T(M, n)
 Accepts(v, n) == v < Threshold(n)
 Result(v, n)  == v % n            \* for a power of two: v & (n-1) = v % n
 
@@ -95,6 +98,7 @@ NoResultUnlessDone == st # "done" => res = -1
 \* the counting statements, evaluated for the bound of every reachable draw (all of 1..M-1)
 UniformAtEveryBound == st = "drawing" /\ rejects = 0 /\ got = 0 => Uniform(dn) /\ MoreThanHalf(dn)
 FibreFormulaSound == st = "drawing" /\ rejects = 0 /\ got = 0 /\ dn <= 40 => FibreSizeIsFibre(dn)
+BoundToProofs == st = "drawing" => ThresholdIsTheProvedOne(dn)
 PowerOfTwoNeverRejects == rejects > 0 => ~IsPow2(dn)
 \* a rejected word leaves a fresh draw state: same bound, nothing of the word kept
 RejectIsFresh == [][\A v \in 0..(M-1) : Reject(v) => dn' = dn /\ got' = 0 /\ res' = -1 /\ st' = "drawing"]_vars
